@@ -152,6 +152,11 @@ Definition pstate_eqb (a b : pstate) : bool :=
    observable, so only their commits show in the state), alerts written, errors surfaced,
    connection closed, state afterwards *)
 Definition obs : Type := (list bytes * list (N * N) * N * bool * pstate)%type.
+(* as given by the harness: the state is omitted when it did not change *)
+Definition hobs : Type := (list bytes * list (N * N) * N * bool * option pstate)%type.
+Definition expand_obs (prev : pstate) (o : hobs) : obs :=
+  let '(d, a, n, c, p) := o in (d, a, n, c, match p with Some x => x | None => prev end).
+Definition obs_state (o : obs) : pstate := let '(_, _, _, _, p) := o in p.
 
 Fixpoint delivered (os : list out) : list bytes :=
   match os with
@@ -196,22 +201,24 @@ Record e2e_case := mk_e2e {
   ec_init : rstate;
   ec_log : list sealed;
   ec_masks : list (N * bytes * N);
-  ec_steps : list (list op * obs)
+  ec_steps : list (list op * hobs)
 }.
 
 Fixpoint check_steps (W : nat) (snmask : N -> bytes -> N) (aopen : N -> N -> bytes -> bytes -> option bytes)
-  (s : rstate) (steps : list (list op * obs)) (i : N) : option (N * obs) :=
+  (s : rstate) (prev : pstate) (steps : list (list op * hobs)) (i : N) : option (N * obs) :=
   match steps with
   | [] => None
-  | (ops, o) :: rest =>
+  | (ops, ho) :: rest =>
+      let o := expand_obs prev ho in
       let '(s', outs) := run_ops snmask aopen (fun _ => true) W s ops in
       let p := project s' outs in
-      if obs_eqb p o then check_steps W snmask aopen s' rest (i + 1) else Some (i, p)
+      if obs_eqb p o then check_steps W snmask aopen s' (obs_state o) rest (i + 1) else Some (i, p)
   end.
 
 (* first step whose observation differs, with what the model expected *)
 Definition e2e_first_bad (c : e2e_case) : option (N * obs) :=
-  check_steps (ec_w c) (tab_mask (ec_masks c)) (log_open (ec_log c)) (ec_init c) (ec_steps c) 0.
+  check_steps (ec_w c) (tab_mask (ec_masks c)) (log_open (ec_log c)) (ec_init c)
+              (project_state (ec_init c)) (ec_steps c) 0.
 
 Definition e2e_ok (c : e2e_case) : bool :=
   match e2e_first_bad c with None => true | Some _ => false end.
